@@ -1,5 +1,6 @@
 //! Shared session infrastructure: issuing documents, establishing device/reader sessions,
 //! reading the stringified state, and AES-GCM done by the harness itself (aes-gcm directly).
+use rand::Rng as _;
 use crate::pki::Pki;
 use aes_gcm::{aead::{Aead, KeyInit}, Aes256Gcm, Nonce};
 use ciborium::Value;
@@ -66,6 +67,62 @@ pub fn issue_with_key(
         .issue::<SigningKey, p256::ecdsa::Signature>(x5chain, pki.ds_key.clone())
         .expect("issue mdoc");
     mdoc
+}
+
+/// A document as a THIRD-PARTY issuer may produce it: digestIDs numbered 0, 1, 2 … separately in every namespace
+/// (so the same digestID occurs in several namespaces), items and MSO encoded by the harness, digests by sha2,
+/// COSE_Sign1 by hand with the document signer's key.  Decoded by the library as an issued Mdoc.
+pub fn issue_third_party(
+    rng: &mut StdRng,
+    pki: &Pki,
+    doc_type: &str,
+    namespaces: &BTreeMap<String, BTreeMap<String, Value>>,
+    alg: DigestAlgorithm,
+    device_cose_key: CoseKey,
+) -> Option<Mdoc> {
+    use sha2::Digest;
+    let (first_ns, first_els) = namespaces.iter().next()?;
+    let (first_id, first_v) = first_els.iter().next()?;
+    let skeleton: BTreeMap<String, BTreeMap<String, Value>> = [(first_ns.clone(), [(first_id.clone(), first_v.clone())].into_iter().collect())].into_iter().collect();
+    let template = issue_with_key(pki, doc_type, skeleton, alg, false, device_cose_key);
+    let t = |s: &str| Value::Text(s.to_string());
+    let mut ns_items: Vec<(Value, Value)> = vec![];
+    let mut digests: Vec<(Value, Value)> = vec![];
+    for (ns, els) in namespaces {
+        let mut items = vec![];
+        let mut ds = vec![];
+        for (i, (id, v)) in els.iter().enumerate() {
+            let item = Value::Map(vec![
+                (t("digestID"), Value::Integer((i as u64).into())),
+                (t("random"), Value::Bytes((0..16).map(|_| rng.gen()).collect())),
+                (t("elementIdentifier"), t(id)),
+                (t("elementValue"), v.clone()),
+            ]);
+            let tagged = Value::Tag(24, Box::new(Value::Bytes(crate::runner::to_bytes(&item))));
+            let item_bytes = crate::runner::to_bytes(&tagged);
+            let d = match alg {
+                DigestAlgorithm::SHA256 => sha2::Sha256::digest(&item_bytes).to_vec(),
+                DigestAlgorithm::SHA384 => sha2::Sha384::digest(&item_bytes).to_vec(),
+                DigestAlgorithm::SHA512 => sha2::Sha512::digest(&item_bytes).to_vec(),
+            };
+            ds.push((Value::Integer((i as u64).into()), Value::Bytes(d)));
+            items.push(tagged);
+        }
+        ns_items.push((t(ns), Value::Array(items)));
+        digests.push((t(ns), Value::Map(ds)));
+    }
+    let mut mso_v = Value::serialized(&template.mso).ok()?;
+    if let Value::Map(m) = &mut mso_v {
+        for (k, v) in m.iter_mut() { if k.as_text() == Some("valueDigests") { *v = Value::Map(digests.clone()); } }
+    }
+    let payload = crate::runner::to_bytes(&Value::Tag(24, Box::new(Value::Bytes(crate::runner::to_bytes(&mso_v)))));
+    let protected = vec![0xa1u8, 0x01, 0x26];
+    let tbs = crate::runner::to_bytes(&Value::Array(vec![t("Signature1"), Value::Bytes(protected.clone()), Value::Bytes(vec![]), Value::Bytes(payload.clone())]));
+    let sig: p256::ecdsa::Signature = signature::Signer::sign(&pki.ds_key, &tbs);
+    use der::Encode;
+    let issuer_auth = Value::Array(vec![Value::Bytes(protected), Value::Map(vec![(Value::Integer(33.into()), Value::Bytes(pki.ds.to_der().ok()?))]), Value::Bytes(payload), Value::Bytes(sig.to_vec())]);
+    let mdoc_v = Value::Map(vec![(t("docType"), t(doc_type)), (t("mso"), mso_v), (t("namespaces"), Value::Map(ns_items)), (t("issuerAuth"), issuer_auth)]);
+    isomdl::cbor::from_slice::<Mdoc>(&crate::runner::to_bytes(&mdoc_v)).ok()
 }
 
 pub fn registry(anchors: Vec<(x509_cert::Certificate, TrustPurpose)>) -> TrustAnchorRegistry {
